@@ -336,7 +336,9 @@ func verifRace() int {
 // each frame has been processed a snapshot is requested: it must be that frame, the last one
 // completed. Every <clear every> frames the camera's 'clear' marker is sent and, once it has
 // been handled, another snapshot is requested: still the last completed frame.
-// argv: <config dir> <frames> <clear every>
+// With a fourth argument k > 0, a test recording is requested (service.TakeTestRecording) after
+// every k-th frame has been completed; the frames at which requests were made are reported.
+// argv: <config dir> <frames> <clear every> [<test recording every>]
 func verifSnapSeq() int {
 	args := strings.Fields(os.Getenv("VERIF_ARGS"))
 	if len(args) < 3 {
@@ -344,6 +346,11 @@ func verifSnapSeq() int {
 	}
 	nframes, _ := strconv.Atoi(args[1])
 	clearEvery, _ := strconv.Atoi(args[2])
+	testEvery := 0
+	if len(args) > 3 {
+		testEvery, _ = strconv.Atoi(args[3])
+	}
+	var testReqs []int
 	conf, err := ParseConfig(args[0])
 	if err != nil {
 		verifOut(map[string]interface{}{"ev": "config-error", "err": err.Error()})
@@ -419,6 +426,11 @@ func verifSnapSeq() int {
 				}
 				stale++
 			}
+			if testEvery > 0 && i%testEvery == 0 && i+25 < nframes {
+				if derr := svc.TakeTestRecording(); derr == nil {
+					testReqs = append(testReqs, i)
+				}
+			}
 			if clearEvery > 0 && i%clearEvery == 0 {
 				conn.Write([]byte(clearBuffer))
 				time.Sleep(3 * time.Millisecond)
@@ -437,6 +449,6 @@ func verifSnapSeq() int {
 	herr := handleConn(conn, conf)
 	<-feederDone
 	verifOut(map[string]interface{}{"ev": "snapseq-summary", "checks": checks, "stale": stale, "after_clear": afterClear,
-		"stale_after_clear": staleAfterClear, "first": first, "err": fmt.Sprint(herr)})
+		"stale_after_clear": staleAfterClear, "first": first, "err": fmt.Sprint(herr), "test_requests_after_frames": testReqs})
 	return 0
 }
